@@ -509,6 +509,14 @@ impl<T: ArrayValue> Array<T> {
             )))
         }
 
+        if fill.is_ok() {
+            // With a fill, the result can be larger than the array
+            let new_shape = (index.iter().zip(&self.shape))
+                .map(|(&i, &s)| i.map_or(s, isize::unsigned_abs))
+                .chain(self.shape[index.len()..].iter().copied());
+            validate_size::<T>(new_shape, env)?;
+        }
+
         let map_keys = self.meta.take_map_keys();
         let row_count = self.row_count();
         let mut arr = match index {
@@ -610,7 +618,7 @@ impl<T: ArrayValue> Array<T> {
                 {
                     return self.take(&[Ok(taking)], env);
                 }
-                let mut new_rows = Vec::with_capacity(abs_taking);
+                let mut new_rows = Vec::with_capacity(abs_taking.min(row_count));
                 let mut arr = if taking >= 0 {
                     // Take in each row
                     for row in self.rows().take(abs_taking) {
